@@ -78,6 +78,22 @@ fn main() {
             println!("input bytes: {:?}", i2);
             0
         }
+        "dbg-rows" => {
+            let v: serde_json::Value = serde_json::from_str(&std::fs::read_to_string(&args[3]).unwrap()).unwrap();
+            let c = &v["detail"]["case"];
+            let argv: Vec<String> = c["argv"].as_array().unwrap().iter().map(|x| x.as_str().unwrap().to_string()).collect();
+            let cfg = minimize::cfg_from_argv(&argv, c["gitconfig"].as_str().map(|s| s.to_string()));
+            let input = exec::unhex(c["input_hex"].as_str().unwrap_or(""));
+            let identity: Vec<String> = v["identity"].as_array().map(|a| a.iter().map(|x| x.as_str().unwrap().to_string()).collect()).unwrap_or_else(|| vec!["git".into(), "diff".into()]);
+            dut::verif_api::set_calling_process(&identity);
+            let ctx = runner::Ctx::new(Tier::Quick, 0, vec![], runner::verif_root().join("target/scratch"), 96);
+            let out = exec::run_cfg(&cfg, &ctx, &input).unwrap();
+            let sc = term::decode(&out);
+            for (i, cr) in rows::classify_all(&sc).iter().enumerate() {
+                println!("{:3} {:?} {:?} `{}`", i, cr.kind, cr.tags.tags, cr.row.text());
+            }
+            0
+        }
         "dbg-sbs" => {
             // print how the side-by-side rows of a replay's saved output are split into panels
             let v: serde_json::Value = serde_json::from_str(&std::fs::read_to_string(&args[3]).unwrap()).unwrap();
